@@ -50,6 +50,8 @@ func salphabet() []sinput {
 	ses("established", "established", "S1", map[string]interface{}{"to": cliNode})
 	ses("established(S2)", "established", "S2", map[string]interface{}{"to": "bob@other.test/x"})
 	ses("established(no-to)", "established", "S1", nil)
+	ses("auth[guest](from=front)", "authenticating", "S1", map[string]interface{}{"schemeOptions": []string{"guest"}, "from": "postmaster@front.test/lb"})
+	ses("established(no-from)", "established", "S1", map[string]interface{}{"to": cliNode, "from": nil})
 	ses("finished", "finished", "S1", nil)
 	ses("failed", "failed", "S1", map[string]interface{}{"reason": map[string]interface{}{"code": 1, "description": "no"}})
 	ses("finishing", "finishing", "S1", nil)
@@ -74,6 +76,10 @@ func (in sinput) bytes() []byte {
 		m["id"] = in.id
 	}
 	for k, v := range in.body {
+		if v == nil {
+			delete(m, k)
+			continue
+		}
 		m[k] = v
 	}
 	b, _ := json.Marshal(m)
